@@ -194,6 +194,49 @@ def run_case(idx, rng, tier, res):
                         if ws(got) != ws(src):
                             res.violation('pysnmp_text_altered', '%s: executed module gives %r, source %r' % (
                                 where, ws(got)[:140], ws(src)[:140]), replay=replay, **feat)
+    # the same generator objects asked with texts first, then without: nothing may stick
+    if idx % 5 == 1:
+        for backend in ('json', 'pysnmp'):
+            cg = pipeline.make_codegen(backend)
+            try:
+                pipeline.compile_set(texts, list(reversed(c.names)), codegen=cg, genTexts=True)
+                r2, w2 = pipeline.compile_set(texts, list(reversed(c.names)), codegen=cg, genTexts=False)
+            except Exception as exc:
+                res.violation('sequence_raised', '%s: %r' % (backend, exc), replay=replay)
+                continue
+            res.count('on_then_off_sequences')
+            outs = dict((m.name, w2[m.name][-1]) for m in g.modules if m.name in w2)
+            rb2 = None
+            if backend == 'pysnmp':
+                rb2 = pipeline.RecBuilder(outs, load_texts=True)
+                rb2.run_all()
+            for m in g.modules:
+                if m.name not in outs:
+                    continue
+                doc2 = pipeline.load_json(outs[m.name]) if backend == 'json' else None
+                ns2 = rb2.namespaces.get(m.name) if (rb2 and m.name not in rb2.errors) else None
+                for d in m.decls:
+                    for clause, src, jkey, getter, gated in clauses(d):
+                        if not gated or ws(src) == '':
+                            continue
+                        stuck = None
+                        if doc2 is not None:
+                            e2 = doc2.get(pyname(d.name))
+                            if isinstance(e2, dict) and e2.get(jkey) is not None:
+                                stuck = e2.get(jkey)
+                        elif ns2 is not None:
+                            o2 = ns2.get(pyname(d.name))
+                            try:
+                                got2 = getattr(o2, getter, None) if d.kind == 'tc' else getattr(o2, getter)()
+                            except Exception:
+                                got2 = None
+                            if got2 is not None and ws(str(got2)) != '':
+                                stuck = got2
+                        if stuck is not None:
+                            res.violation('text_sticks_after_request', '%s backend: %s::%s %s text %r present in a '
+                                          'genTexts=False run that follows a genTexts=True run on the same generator' % (
+                                              backend, m.name, d.name, clause, str(stuck)[:60]), replay=replay,
+                                          backend=backend)
     res.sig = harness.stable_hash(sorted(set(sig)))
     if idx % 400 == 0:
         d = [dd for m in g.modules for dd in m.decls if clauses(dd)]
